@@ -65,7 +65,20 @@ ALSO = {
             "C01_DbNotSatisfied"],
 }
 
-LEVEL_TEXT = {}
+# which measured premise makes a run non-trivial for a property: (cover tag, description)
+NONTRIVIAL = {
+    "C01": ("sat", "the run returned a solution, so the validity rules were evaluated on it"),
+    "C03": ("unsat", "the run ended Unsolvable, so a conflict graph was judged"),
+    "C05": ("sat", "the run returned a solution"),
+    "C07": ("conflictfree", "TLC found the premise ConflictFree to hold for the problem"),
+    "C08": ("directbest", "TLC found DirectBestFeasible to hold for the problem"),
+    "C09": ("exactcalls", "hint-free, conflict-free, fresh solver: the exact call set was compared"),
+    "C10": ("quiescent2", "quiescent points with at least two outstanding provider requests (a real scheduling choice)"),
+    "C11": ("quiescent2", "quiescent points with at least two outstanding provider requests"),
+    "C12": ("cancelled", "the run was cancelled at the enumerated poll index"),
+    "C13": ("reused", "a solve on a solver that had solved before"),
+    "C14": ("soft", "the problem has soft requirements"),
+}
 
 
 def owner(rule):
@@ -199,7 +212,14 @@ def finish_trace_check(prop, tier, seed, res, t0, total_cases, extra_cov=None, e
     for (msg, path) in (extra_violations or []):
         print(f"VIOLATION property={prop} replay={path}")
         log("  " + msg)
+    tag = NONTRIVIAL.get(prop)
+    nontrivial = res.cover.get(tag[0], 0) if tag else res.runs
     cov = {
+        "evaluations": res.runs,
+        "distinct_nontrivial": nontrivial,
+        "rule": ("cases are generated from seeded profiles (harness/src/gen.rs) and configurations (harness/src/plans.rs); "
+                 "every case has a distinct id and distinct (universe, problem, configuration); non-trivial = "
+                 + (tag[1] if tag else "every run (each must terminate with a verdict)")),
         "states": res.states + extra_states,
         "transitions": res.transitions + extra_transitions,
         "traces_validated_against_impl": res.runs,
@@ -215,6 +235,8 @@ def finish_trace_check(prop, tier, seed, res, t0, total_cases, extra_cov=None, e
     }
     if extra_cov:
         cov.update(extra_cov)
+    import props as _props
+    level = _props.META.get(prop, {}).get("level", level)
     vlib.write_evidence(prop, tier, seed, level, cov, time.time() - t0, nviol,
                         ["the TLA+ rules in spec/Trace_Solve.tla state the property correctly (weakest reading)",
                          "TLC evaluates them faithfully",
